@@ -7,7 +7,7 @@ from orquestra.quantum.utils import scale_and_discretize
 from orquestra.quantum.measurements import Measurements
 from orquestra.quantum.distributions import MeasurementOutcomeDistribution
 
-H = Harness("C13", ["OQ.Base.CaseEq", "OQ.Stats.Shots", "OQ.Stats.ShotsCases", "OQ.Stats.Represent"],
+H = Harness("C13", ["OQ.Base.CaseEq", "OQ.Stats.Shots", "OQ.Stats.ShotsCases", "OQ.Stats.Represent", "OQ.Stats.RepresentFeasibility"],
             "kinds: expand (incl. counts up to 2^70 near divisibility boundaries, max=1), combine_bitstrings / "
             "combine_measurement_counts (valid and mismatched multiplicities), split_into_batches (valid, wrong length, "
             "non-positive size), scale_and_discretize (integer weights with power-of-two sum: exact; float weights: laws "
@@ -215,7 +215,7 @@ def run_case(inp):
         cnt = collections.Counter(tuple(b) for b in bs)
         res = [cnt.get(k, 0) for k in keys]
         cd = clist(draws, lambda dr: clist(dr, lambda kv: cpair(cnat(kv[0]), cz(kv[1]))))
-        chk = f"represent_eqb {lz(inp['ps'])} {cz(inp['N'])} {cd} {lz(res)}"
+        chk = f"represent_eqb {lz(inp['ps'])} {cz(inp['N'])} {cd} {lz(res)} && run_avoidb {lz(inp['ps'])} {cz(inp['N'])} {cd}"
         branch = "exact" if not draws else ("add" if sum(int(round(p / inp['S'] * inp['N'])) for p in inp['ps']) < inp["N"] else f"eliminate-{len(draws)}")
         return dict(chk=chk, oracle_ok=ok, oracle_msg="" if ok else f"{len(bs)} shots for N={inp['N']}, off-support: {[b for b in bs if tuple(b) not in support][:3]}",
                     kind=kind + "-" + branch + ("-sparse" if inp["N"] <= len(d) + 2 and len(d) >= 4 else ""), nontrivial=len(d) >= 2)
